@@ -27,12 +27,12 @@ import (
 	"verifharness/internal/sx"
 )
 
-
 // childLine kinds (tab separated, one per line on the child's stdout):
-//   C <case> <observed> <branch> <nontrivial 0|1>
-//   F <key> <what> <case> <detail-json>
-//   X <name> <json>
-//   D                                  (child finished normally)
+//
+//	C <case> <observed> <branch> <nontrivial 0|1>
+//	F <key> <what> <case> <detail-json>
+//	X <name> <json>
+//	D                                  (child finished normally)
 type childResult struct {
 	done     bool
 	timedOut bool
